@@ -36,7 +36,7 @@ ASSUMPTIONS = [fastenv.ASSUMPTION, "fake dbutils.fs (cp / head / put / rm over t
 OUTSIDE = ["Spark / Delta paths (dbfs.pyspark codec)", "real DBFS semantics (eventual consistency, permissions)", "pandas"]
 FUNCTIONS_ENCODED = ["dds._api.set_store", "dds.codecs.databricks.CommitType.parse", "dds.codecs.databricks.DBFSURI.*", "dds.codecs.databricks.DBFSStore.*", "dds.codecs.builtins.*", "dds._api._eval_new_ctx", "dds._api.load"]
 BOUNDS = {"quick": {"commit types": ["none", "links_only", "full"] , "spellings": "documented names, enum names, enum values x lower / upper / capitalised", "history": "2 evaluations, versions of 2 tracked variables symbolic in {1,2}", "legacy kinds": ["string", "bytes", "pickle"]}}
-BOUNDS["thorough"] = BOUNDS["quick"]
+BOUNDS["thorough"] = dict(BOUNDS["quick"], history="3 evaluations (the restart before the last one), versions of 2 tracked variables symbolic in {1,2}")
 LAST_DETAIL = [""]
 INT, DATA = "dbfs:/store/int", "dbfs:/store/data"
 NAMES = [("none", "NO_COMMIT"), ("links_only", "LINK_ONLY"), ("full", "FULL"), ("no_commit", "NO_COMMIT"), ("link_only", "LINK_ONLY"), ("NO_COMMIT", "NO_COMMIT"), ("LINK_ONLY", "LINK_ONLY"), ("FULL", "FULL")]
@@ -108,18 +108,19 @@ def run_impl(a):
     ok = True
 
     def bad(msg):
-        LAST_DETAIL[0] = "commit_type=%s, versions %r: %s" % (ctype, [(a["va0"], a["vb0"]), (a["va1"], a["vb1"])], msg)
+        LAST_DETAIL[0] = "commit_type=%s, versions %r: %s" % (ctype, [(a["va%d" % j], a["vb%d" % j]) for j in range(sel.get("steps", 2))], msg)
         import os
 
         if os.environ.get("VERIF_DEBUG") and not h.TWIN:
             print("DEBUG", LAST_DETAIL[0], flush=True)
         return False
 
-    for step in (0, 1):
+    nsteps = sel.get("steps", 2)
+    for step in range(nsteps):
         p5.VA = 1 if a["va%d" % step] == 1 else 2
         p5.VB = 1 if a["vb%d" % step] == 1 else 2
         want = p5.plain()
-        if step == 1 and sel.get("restart"):
+        if step == nsteps - 1 and sel.get("restart"):
             h.fresh_process()
             dds.accept_module("vpipes")
             api.set_store("dbfs", INT, DATA, dbu, ctype, None)
@@ -224,7 +225,10 @@ def make_fn(fn, sel, tag):
     if fn == "ctype":
         return h.gen_fn(tag, "ctype", [("k", "int"), ("c", "int")], ["0 <= k <= %d" % (len(NAMES) + len(UNKNOWN)), "0 <= c <= 2"], "harness.C19", "ctype_impl")
     if fn == "run":
-        return h.gen_fn(tag, "run", [("va0", "int"), ("vb0", "int"), ("va1", "int"), ("vb1", "int"), ("pay", "str")], ["1 <= va0 <= 2 and 1 <= vb0 <= 2 and 1 <= va1 <= 2 and 1 <= vb1 <= 2", "len(pay) <= 1 and pay.isascii()"], "harness.C19", "run_impl")
+        n = sel.get("steps", 2)
+        params = [(v % j, "int") for j in range(n) for v in ("va%d", "vb%d")] + [("pay", "str")]
+        pres = ["1 <= va%d <= 2 and 1 <= vb%d <= 2" % (j, j) for j in range(n)] + ["len(pay) <= 1 and pay.isascii()"]
+        return h.gen_fn(tag, "run", params, pres, "harness.C19", "run_impl")
     kind = sel["kind"]
     if kind == "string":
         return h.gen_fn(tag, "legacy", [("s", "str")], ["len(s) <= 2"], "harness.C19", "legacy_impl")
@@ -237,7 +241,7 @@ def queries(tier):
     qs = [{"id": "ctype", "fn": "ctype", "sel": {}, "timeout": 300}]
     for ct in ("none", "links_only", "full"):
         for restart in (0, 1):
-            qs.append({"id": "run.%s.%s" % (ct, "restart" if restart else "same"), "fn": "run", "sel": {"ctype": ct, "restart": restart}, "timeout": 600})
+            qs.append({"id": "run.%s.%s" % (ct, "restart" if restart else "same"), "fn": "run", "sel": {"ctype": ct, "restart": restart, "steps": 2 if tier == "quick" else 3}, "timeout": 600 if tier == "quick" else 1800})
     for kind in ("string", "bytes", "pickle"):
         qs.append({"id": "legacy.%s" % kind, "fn": "legacy", "sel": {"kind": kind}, "timeout": 300})
     return qs
